@@ -67,7 +67,11 @@ def make_case(rules, doc, perm=None, check_perm=True, expect_no_raise=True):
     applied = [next(i for i, o in enumerate(objs) if o is x) for x in schema.rules]
     if applied != order:
         c.fail("applied_order", f"rules applied in order {applied}, expected {order}")
+    doc_before = enc.enc_val(doc)
     impl = enc.outcome(lambda: rc.obs_validated(schema.validate(doc), applied))
+    if enc.enc_val(doc) != doc_before:
+        c.fail("callers_document_unchanged", "validate() modified the caller's document")
+        doc = enc.dec_val(doc_before)
     sensitive = has_pct(doc) or "%" in repr(terms_)
     has_casts = any(r["cast"] for r in rules)
     c.ask(["validate", terms_, enc.enc_val(doc)], impl, "validate", make_cmp(sensitive, has_casts))
@@ -143,8 +147,14 @@ def generate(rng, n, tier, cast_p=0.0, hostile=False):
         k = rng.choice([0, 1, 2, 2, 3, 3, 4, 5] if tier == "quick" else [0, 1, 2, 3, 4, 5, 6, 8])
         rules = [rc.gen_rule(g, cast_p=cast_p, hostile_p=0.0 if hostile else 0.03) for _ in range(k)]
         # a common document grown along one of the rule paths
-        base = rng.choice(rules)["parts"] if rules else []
-        doc = gen_doc_for_parts(g, base)
+        base_rule = rng.choice(rules) if rules else None
+        base = base_rule["parts"] if base_rule else []
+        doc = gen_doc_for_parts(g, base, leaf=rc.cast_leaf(g) if (base_rule and base_rule["cast"]) else None)
+        if base_rule and base_rule["cast"] and rng.random() < 0.5:
+            # several rules over the same nodes (two rules casting the same node, a cast and a cast-free rule …)
+            for other in rules:
+                if rng.random() < 0.5:
+                    other["parts"] = base_rule["parts"]
         if hostile and rng.random() < 0.5:
             doc = g.doc()
         perm = list(range(k))
